@@ -14,6 +14,7 @@ from engine import pat
 from engine.util import own_nodes, calls_with_nodes, where
 
 RULES = {
+    "R-05.10": "style keywords reach real style fields: every keyword BaseStyle.from_keywords translates a legacy to_text() keyword into (chunksize, separator) is a declared field of a style class, so building the style cannot raise TypeError for a documented option",
     "R-05.9": "a field printed in chunks (hex/base64 broken at the style's chunk size with the style's separator) is the LAST field of the text form, where the reader concatenates the remaining tokens; anywhere else the chunks parse as separate fields",
     "R-05.8": "an enum member whose value has several bits set is a field VALUE (e.g. KEY flags NOKEY = both type bits): `flags & Member` is compared with the member under the field mask, never tested by truth value (which means 'any of the bits')",
     "R-05.7": "names inside records are printed by Name.to_styled_text: its relativity decisions (\"@\" for the origin, dropping the final dot) are taken on the name that is printed (C01 R-01.7 adopted)",
@@ -725,6 +726,24 @@ def run(model, rep, tier):
                       f"{why}: with the default style a long value is broken into space-separated chunks, and only the LAST field is read back with concatenate_remaining_identifiers - "
                       "the chunks of a middle field are read as the following fields, so the text does not parse back", stmt="chunked-last")
     rep.floor("R-05.9", n_ch, 10)
+    # ---------------------------------------------------------------- R-05.10
+    fk = model.func("dns.style.BaseStyle.from_keywords")
+    base = model.cls("dns.style.BaseStyle")
+    fields = set()
+    for ci in [base] + list(model.subclasses(base)):
+        for st in ci.node.body:
+            if isinstance(st, ast.AnnAssign) and isinstance(st.target, ast.Name):
+                fields.add(st.target.id)
+    n_kw = 0
+    for x in ast.walk(fk.node):
+        if isinstance(x, ast.Assign) and isinstance(x.targets[0], ast.Subscript) and isinstance(x.targets[0].slice, ast.Constant) and isinstance(x.targets[0].slice.value, str):
+            n_kw += 1
+            key = x.targets[0].slice.value
+            rep.check(key in fields, "R-05.10", fk.qualname, where(fk, x), f"`{key}` is a style field",
+                      f"from_keywords passes `{key}=` to the style constructor, but no style class declares such a field: to_text(separator=...) / to_text(chunksize=...) raise TypeError "
+                      f"instead of producing text (declared: {sorted(f_ for f_ in fields if 'chunk' in f_)})", stmt=f"style-keyword {key}")
+    rep.floor("R-05.10", n_kw, 4)
+    rep.floor("R-05.10-fields", len(fields), 15)
     rep.meta["explanation"] = (
         "Interval evaluation of every struct.pack argument in ~60 wire encoders against the ranges established by constructor validators (field table read from __init__), a local scan of every text "
         "producer for operations that can raise on validated data, folded escape-table comparison for quoted strings, and a per-field check that octet-wise printing is paired with octet-wise parsing. "
@@ -732,6 +751,8 @@ def run(model, rep, tier):
 
 
 WITNESSES = [
+    {"id": "c05-style-keyword-unknown-field", "rule": "R-05.10", "file": "dns/style.py", "expect": "fires",
+     "old": "                ok_kw[\"hex_chunk_size\"] = v", "new": "                ok_kw[\"hex_chunksize\"] = v"},
     {"id": "c05-key-nokey-any-bit", "rule": "R-05.8", "file": "dns/rdtypes/ANY/KEY.py", "expect": "fires",
      "old": "        if (flags & DNS_KEYFLAG_TYPEMASK) != LegacyFlag.NOKEY:", "new": "        if not (flags & LegacyFlag.NOKEY):"},
     {"id": "c05-nsec3-salt-chunked", "rule": "R-05.9", "file": "dns/rdtypes/ANY/NSEC3.py", "expect": "fires",
